@@ -701,6 +701,18 @@ func newPrio(c Cfg, w *vrt.World) *explore.Instance {
 	inst.Observe = func(w *vrt.World) string {
 		return fmt.Sprintf("order=%v released=%d max_inflight=%d err=%v", m.order, m.released, m.maxTotal, m.errSeen)
 	}
+	inst.Project = func(w *vrt.World) string {
+		ks := make([]uint, 0, len(m.inflight))
+		for k := range m.inflight {
+			ks = append(ks, k)
+		}
+		sort.Slice(ks, func(i, j int) bool { return ks[i] < ks[j] })
+		fl := ""
+		for _, k := range ks {
+			fl += fmt.Sprintf("%d:%d ", k, m.inflight[k])
+		}
+		return fmt.Sprintf("next=%v written=%v inflight=[%s] released=%d closed=%v out=%v err=%v nerr=%d", m.nextSeq, m.written, fl, m.released, m.inClosed, m.outClosed, m.errClosed, len(m.errSeen))
+	}
 	inst.Counters = func() map[string]int {
 		r := map[string]int{"deliveries": m.delivered, "deliveries_reaching_H_in_flight": m.fullStates, "divider_calls": m.divCalls}
 		if m.faulted != 0 {
